@@ -897,6 +897,21 @@ def installSnapshot (cfg : Conf) (s : Node) (prevE lastE : Entry) (cluster : Lis
         | .ok (s3, o3) => (s3, o2 ++ o3, some lastE.idx)
       else (s2, o2, some lastE.idx)
 
+/-- the D4 guard of `__loadDumpFile(clearJournal=True)` alone: the node has applied the snapshot's position or holds
+its last entry (then the received snapshot is dropped, `finishIncoming(False)`, and acknowledged) -/
+def snapGuardKeeps (s : Node) (lastE : Entry) : Bool :=
+  match getEntries s.log (some lastE.idx) (some 1) none with
+  | none => false
+  | some own => decide (lastE.idx ≤ s.lastApplied) || (match own with | e :: _ => e.term == lastE.term | [] => false)
+
+/-- repair D70: a completely received snapshot replaces the stored one only when the node installs it, and the
+node installs it only when storing succeeded (`finishIncoming(True)`).  A complete snapshot whose storing FAILS
+behaves like `.complete` when the guard keeps the node's own state (storing is never attempted), and like `.broken`
+otherwise (`__loadDumpFile` returns None, nothing is installed, no reply).  `s0` = the state after the head of the
+handler (`envState`). -/
+def snapStoreFails (s0 : Node) (prevE lastE : Entry) (cluster : List Nat) : SnapMsg :=
+  if snapGuardKeeps s0 lastE then .complete prevE lastE cluster else .broken
+
 /-- any `append_entries` message -/
 inductive EnvMsg
   | regular (m : AppendMsg)
